@@ -574,7 +574,8 @@ package tree
 //@   trusted walk over a tree built by the tree constructors; result not specified
 
 //@ func (*sharedEntryAttributes).AddCacheUpdateRecursive
-//@   trusted recursive insertion into a tree built by the tree constructors; result not specified
+//@   trusted recursive insertion into a tree built by the tree constructors; result not specified; cache updates are immutable (only cache.NewUpdate writes their fields)
+//@   ensures updates_are_immutable: unchanged(cache.Update.path) && unchanged(cache.Update.value) && unchanged(cache.Update.priority) && unchanged(cache.Update.owner)
 
 //@ func (*sharedEntryAttributes).getRegularDeletes
 //@   props C01
